@@ -869,3 +869,149 @@ func genBigDv(r *rand.Rand, i int) Scenario {
 	}
 	return sc
 }
+
+// twin_persist: three segments of identical layout (same sizes, same section offsets, same document count) and
+// different content, persisted one right after the other, then merged one by one, then persisted again in another
+// order: every file's footer CRC covers that file's own bytes (C11, C04)
+func genTwinPersist(r *rand.Rand, i int) Scenario {
+	cfg := defaultCfg(r)
+	cfg.MinDocs, cfg.MaxDocs = 1, 4
+	cfg.PEmptyDoc, cfg.PNoID = 0, 0
+	cfg.PStored = 1
+	seq := 0
+	b := genBatch(r, &cfg, &seq)
+	twin := func(delta int) Batch {
+		t := make(Batch, len(b))
+		for d := range b {
+			t[d] = make(Doc, len(b[d]))
+			for k := range b[d] {
+				fi := b[d][k]
+				if fi.Name != "_id" {
+					v := append(Bytes{}, fi.Value...)
+					for x := range v {
+						v[x] = (v[x] + delta) % 256
+					}
+					fi.Value = v
+				}
+				t[d][k] = fi
+			}
+		}
+		return t
+	}
+	sc := Scenario{Name: fmt.Sprintf("twin_persist-%d", i), NormKind: "code", Universe: universeOf(&cfg), Batches: []Batch{b, twin(1), twin(2)},
+		Tags: []string{"twin_persist"}}
+	mode := pickMode(r)
+	sc.Ops = append(sc.Ops, Op{Op: "build", Seg: 1, Batch: 0, Mode: mode}, Op{Op: "build", Seg: 2, Batch: 1, Mode: mode}, Op{Op: "build", Seg: 3, Batch: 2, Mode: mode},
+		Op{Op: "persist", Seg: 1, File: 1}, Op{Op: "persist", Seg: 2, File: 2}, Op{Op: "persist", Seg: 3, File: 3})
+	one := []DropSpec{{Kind: "nil"}}
+	sc.Ops = append(sc.Ops, Op{Op: "merge", File: 4, In: []int{1}, Drops: one, Mode: mode, Buf: 64}, Op{Op: "merge", File: 5, In: []int{2}, Drops: one, Mode: mode, Buf: 64},
+		Op{Op: "merge", File: 6, In: []int{3}, Drops: one, Mode: mode, Buf: 64})
+	for f := 1; f <= 6; f++ {
+		sc.Ops = append(sc.Ops, Op{Op: "load", File: f, Seg: 10 + f, Backing: []string{"mem", "file"}[(i+f)%2]})
+	}
+	// loaded twins persisted back to back, in another order
+	sc.Ops = append(sc.Ops, Op{Op: "persist", Seg: 13, File: 23}, Op{Op: "persist", Seg: 11, File: 21}, Op{Op: "persist", Seg: 12, File: 22},
+		Op{Op: "persist", Seg: 15, File: 25}, Op{Op: "persist", Seg: 14, File: 24})
+	for _, f := range []int{21, 22, 23, 24, 25} {
+		sc.Ops = append(sc.Ops, Op{Op: "load", File: f, Seg: 10 + f, Backing: "mem"}, Op{Op: "observe", Seg: 10 + f, Level: "light"})
+	}
+	return sc
+}
+
+// adv_boundary: iterations that stand exactly on the last posting of a chunk (or have not started and the first
+// posting lies in a later chunk) and then Advance INTO the next chunk by 1, 1023, 1024, 1025, 1026, 1500 ... document
+// numbers beyond its first posting; default chunk mode with two to four chunks of more than 1024 documents, and
+// legacy modes; enumerated, not sampled (C05)
+func genAdvBoundary(r *rand.Rand, i int) Scenario {
+	n := []int{4096, 2200, 3073, 4400, 6200}[i%5]
+	stride := []int{4, 2, 1, 3, 2}[i%5]
+	mode := uint32(0)
+	if (i/5)%3 == 2 {
+		mode = []uint32{1024, 700}[(i/15)%2]
+	}
+	var xs, zs []int
+	b := make(Batch, n)
+	for d := 0; d < n; d++ {
+		doc := Doc{}
+		terms := []TermOcc{}
+		if d%stride == 0 {
+			terms = append(terms, TermOcc{Term: B([]byte("x")), Freq: 1 + d%3, Locs: []Loc{}})
+			xs = append(xs, d)
+		}
+		if d >= n/2+7 && d%2 == 0 {
+			occ := TermOcc{Term: B([]byte("z")), Freq: 1 + (d/2)%4, Locs: []Loc{}}
+			if d%6 == 0 {
+				occ.Locs = append(occ.Locs, Loc{Field: "", Pos: 1, Start: d, End: d + 1})
+			}
+			terms = append(terms, occ)
+			zs = append(zs, d)
+		}
+		if len(terms) > 0 {
+			l := 0
+			for _, t := range terms {
+				l += t.Freq
+			}
+			doc = append(doc, FieldInst{Name: "a", Len: l, Value: Bytes{}, Terms: terms})
+		}
+		b[d] = doc
+	}
+	sc := Scenario{Name: fmt.Sprintf("adv_boundary-%d", i), NormKind: "code", Universe: []string{"_id", "a"}, Batches: []Batch{b}, Tags: []string{"adv_boundary"}}
+	sc.Ops = append(sc.Ops, Op{Op: "build", Seg: 1, Batch: 0, Mode: mode})
+	seg := 1
+	if (i/5)%3 == 1 {
+		sc.Ops = append(sc.Ops, Op{Op: "persist", Seg: 1, File: 1}, Op{Op: "load", File: 1, Seg: 2, Backing: []string{"mem", "file"}[i%2]})
+		seg = 2
+	}
+	chunkOf := func(card int) int {
+		if mode != 0 {
+			return int(mode)
+		}
+		return n / (card/1024 + 1)
+	}
+	it := 20
+	walk := func(term string, ps []int, pl int) {
+		cs := chunkOf(len(ps))
+		sc.Ops = append(sc.Ops, Op{Op: "pl_open", Seg: seg, Field: "a", Term: B([]byte(term)), Pl: pl})
+		nb := 0
+		for bnd := cs; bnd < n && nb < 3; bnd += cs {
+			last, first := -1, -1
+			for _, p := range ps {
+				if p < bnd {
+					last = p
+				} else if first < 0 {
+					first = p
+				}
+			}
+			if first < 0 {
+				break
+			}
+			nb++
+			for _, delta := range []int{1, 1023, 1024, 1025, 1026, 1500, cs - 3} {
+				target := first + delta
+				if target >= bnd+cs || target >= n {
+					continue
+				}
+				it++
+				sc.Ops = append(sc.Ops, Op{Op: "it_open", Pl: pl, It: it, Freq: true, Norm: true, Locs: delta%2 == 1})
+				if last >= 0 {
+					if delta == 1025 && last >= 3*stride {
+						// arrive by Next calls instead of by Advance
+						sc.Ops = append(sc.Ops, Op{Op: "it_adv", It: it, D: last - 2*stride}, Op{Op: "it_next", It: it}, Op{Op: "it_next", It: it})
+					} else {
+						sc.Ops = append(sc.Ops, Op{Op: "it_adv", It: it, D: last})
+					}
+				}
+				sc.Ops = append(sc.Ops, Op{Op: "it_adv", It: it, D: target}, Op{Op: "it_next", It: it}, Op{Op: "it_next", It: it})
+			}
+		}
+	}
+	walk("x", xs, 10)
+	walk("z", zs, 11)
+	// the first call of an iteration goes into a later chunk
+	for _, delta := range []int{0, 1, 1030, 1500} {
+		it++
+		sc.Ops = append(sc.Ops, Op{Op: "it_open", Pl: 11, It: it, Freq: true, Norm: true, Locs: true},
+			Op{Op: "it_adv", It: it, D: zs[0] + delta}, Op{Op: "it_next", It: it}, Op{Op: "it_next", It: it})
+	}
+	return sc
+}
